@@ -167,7 +167,7 @@ import "encoding/binary"
 
 //@ func (bufferHeader).setInUsed
 //@   requires len(s) > 16
-//@   ensures  (mem8(s, 16) / 2) % 2 == 1 && mem8(s, 16) % 2 == old(mem8(s, 16)) % 2 && mem8(s,16) / 4 == old(mem8(s,16)) / 4
+//@   ensures  mem8(s, 16) == old(mem8(s, 16)) + ite((old(mem8(s, 16)) / 2) % 2 == 1, 0, 2)
 //@   modifies s[16:17]
 
 //@ func (bufferHeader).isInUsed
@@ -493,7 +493,7 @@ import "encoding/binary"
 //@   ensures  r1 != nil ==> r0 == nil
 //@   ensures  r1 == nil ==> r0 != nil && fresh(r0) && offset + 36 <= len(mem) && r0.offsetInShm == offset && r0.bufferRegionOffsetInShm == uint32(offset + 36)
 //@   ensures  r1 == nil ==> mem32(mem, offset + 16) + 20 < 4294967296 && 36 + mem32(mem, offset + 4) * (mem32(mem, offset + 16) + 20) < 4294967296 ==> listGeom(r0, mem, offset, mem32(mem, offset + 4), mem32(mem, offset + 16))
-//@   ensures  offset + 36 + mem32(mem, offset + 4) * (mem32(mem, offset + 16) + 20) <= len(mem) && offset + 36 <= len(mem) ==> r1 == nil
+//@   ensures  mem32(mem, offset + 16) + 20 < 4294967296 && offset + 36 + mem32(mem, offset + 4) * (mem32(mem, offset + 16) + 20) <= len(mem) && offset + 36 <= len(mem) ==> r1 == nil
 //@   modifies nothing
 
 // selfGeom: a list's words and slot region sit where its own recorded offsets say, inside mem
